@@ -202,6 +202,7 @@ PROPS = {
     'C16': dict(
         rules=[kernel.sib_grav, geo.geo_frame, geo.geo_perturb, geo.geo_curv, geo.parity,
                geo.role_radii, geo.parity_ecef, geo.olson_rules,
+               lambda c: forms.form_agree(c, ('earth', 'transform')),
                lambda c: dtype.dtype_inherit(c, ('transform', 'earth'))],
         decided=['NED axes of mat_en_from_ll are the partial derivatives of lla_to_ecef with '
                  'lengths given by principal_radii (symbolic proof for all lat/lon/alt)',
@@ -217,7 +218,8 @@ PROPS = {
         undecided=['floating-point rounding of the ECEF -> geodetic round trip (its truncation error is '
                    'decided: third-order guess + Newton step)',
                    'behaviour exactly at the poles (division by cos lat)',
-                   'scalar/vector call-form agreement']),
+                   'shape errors of a call form (the values of the scalar and the stacked form '
+                   'are decided: FORM-AGREE)']),
     'C05': dict(
         rules=[rot.euler_inv, errmodel.es_inv, errmodel.es_first, errmodel.es_perturb,
                integrator.es_copy, integrator.es_2drows, geo.geo_perturb, geo.role_radii],
